@@ -515,6 +515,14 @@ class ExcFlow:
                 add('ValueError', 'datetime', n, why if ok else None)
                 if not ok:
                     add('OverflowError', 'datetime', n)
+            elif isinstance(n.func, ast.Attribute) and n.func.attr in ('format', 'format_map') and not isinstance(
+                    ev_const(n.func.value), str):
+                # str.format on text that is not a constant: a stray `{` or `}` in the interpolated part raises
+                # ValueError (KeyError / IndexError for an unknown field)
+                recv = n.func.value
+                dyn = isinstance(recv, ast.JoinedStr) or isinstance(recv, (ast.Name, ast.Attribute, ast.Subscript, ast.BinOp, ast.Call))
+                if dyn:
+                    add('ValueError', 'format', n)
             elif cn.split('.')[-1] in ('strptime', 'fromisoformat') and cn.split('.')[0] in self.dt_names(mod):
                 if any(ev_const(a) is None for a in n.args):
                     add('ValueError', 'datetime', n)
